@@ -33,10 +33,49 @@ class Opaque:
     def __hash__(self):
         return hash(self._name)
 
+    def __getattr__(self, name):
+        # method call on a value of an uninterpreted sort (e.g. listener.close()): answered from the call script
+        if name.startswith('_'):
+            raise AttributeError(name)
+        return OpaqueMethod(name)
+
+
+class OpaqueExc(Exception):
+    """Value of the uninterpreted sort Exc: a real exception instance (it may be raised)."""
+    def __init__(self, name):
+        Exception.__init__(self, name)
+        self._name = name
+
+    def __repr__(self):
+        return f'<Opaque {self._name}>'
+
+    def __eq__(self, o):
+        return isinstance(o, OpaqueExc) and o._name == self._name
+
+    def __hash__(self):
+        return hash(self._name)
+
+
+class OpaqueMethod:
+    def __init__(self, name):
+        self.name = name
+
+    def __call__(self, *args, **kwargs):
+        what = f'<opaque>.{self.name}'
+        ent = RT.next_script(lambda e: e.get('recv_addr') is None and
+                             e['key'].rsplit('.', 1)[-1] == self.name, what)
+        return RT.answer(ent, args, kwargs, what)
+
 
 class AwaitableOpaque(Opaque):
     def __await__(self):
         yield None
+        rt = RT
+        if rt is not None and rt.pos < len(rt.script) and rt.script[rt.pos]['key'].startswith('await ') \
+                and rt.script[rt.pos].get('recv_addr') is None:
+            # `await x` modelled by the sidecar's 'await <key>' stub: its scripted result is what the await yields
+            ent = rt.next_script(lambda e_: True, rt.script[rt.pos]['key'])
+            return rt.answer(ent, [self], {}, ent['key'])
         return None
 
 
@@ -58,6 +97,43 @@ class Mock:
         if name.startswith('__'):
             raise AttributeError(name)
         return RT.method_stub(self, name)
+
+    def __call__(self, *args, **kwargs):
+        # a collaborator that is itself called (a function object held in a table / local): answered by the next
+        # script entry of a receiver-less call through a plain name (`handler(self, packet)`)
+        what = f'#{self._addr}()'
+        ent = RT.next_script(lambda e: e.get('recv_addr') is None and
+                             ('.' not in e['key'] or e['key'].endswith('[]')), what)
+        return RT.answer(ent, args, kwargs, what)
+
+
+def _isa_getattribute(self, name):
+    # a Mock that is also an instance of a real class: fields are attributes, every public method is scripted
+    if name.startswith('_'):
+        return object.__getattribute__(self, name)
+    d = object.__getattribute__(self, '__dict__')
+    if name in d:
+        return d[name]
+    return RT.method_stub(self, name)
+
+
+def mock_isa(addr, cls, isa, mod):
+    """opt-in (spec.native_isinstance): a collaborator that passes isinstance() checks of the real code for the
+    class it stands for; struct sequences of the standard library (os.stat_result) are built as real values"""
+    try:
+        if '.' in isa:
+            m, n = isa.rsplit('.', 1)
+            real = getattr(importlib.import_module(m), n)
+        else:
+            real = getattr(mod, isa)
+        if hasattr(real, 'n_sequence_fields'):
+            return real(tuple(range(real.n_sequence_fields)))
+        T = type('Mock_' + cls.replace('.', '_'), (Mock, real), {'__getattribute__': _isa_getattribute})
+        obj = object.__new__(T)
+        Mock.__init__(obj, addr, cls)
+        return obj
+    except Exception:
+        return Mock(addr, cls)
 
 
 class Runtime:
@@ -85,6 +161,8 @@ class Runtime:
             return bytearray(b) if j.get('mutable') else b
         if t == 'str':
             return j['v']
+        if t == 'float':
+            return float(j['v'])
         if t == 'tuple':
             return tuple(self.dec(x) for x in j['v'])
         if t == 'list':
@@ -99,6 +177,8 @@ class Runtime:
                 return j['name'].encode()
             if nat == 'str':
                 return j['name']
+            if j.get('sort') == 'Exc':
+                return OpaqueExc(j['name'])
             cls = AwaitableOpaque if j.get('awaitable') else Opaque
             return cls(j['name'], j.get('truthy', True), j.get('awaitable', False))
         if t == 'ref':
@@ -124,7 +204,7 @@ class Runtime:
         import builtins
         cur = None
         for src in (self.module, importlib.import_module('asyncssh'), importlib.import_module('asyncssh.misc'),
-                    importlib.import_module('asyncssh.packet'), builtins):
+                    importlib.import_module('asyncssh.packet'), builtins, asyncio):
             if hasattr(src, name.split('.')[0]):
                 cur = src
                 break
@@ -155,6 +235,8 @@ class Runtime:
             return {'t': 'bool', 'v': v}
         if isinstance(v, int):
             return {'t': 'int', 'v': int(v)}
+        if isinstance(v, float):
+            return {'t': 'float', 'v': v}
         if isinstance(v, (bytes, str)) and '!val!' in (v.decode('latin1') if isinstance(v, bytes) else v) \
                 and self.job.get('opaque_native'):
             return {'t': 'opaque', 'name': v.decode('latin1') if isinstance(v, bytes) else v}
@@ -162,6 +244,10 @@ class Runtime:
             return {'t': 'bytes', 'v': bytes(v).hex(), 'mutable': isinstance(v, bytearray)}
         if isinstance(v, str):
             return {'t': 'str', 'v': v}
+        if isinstance(v, tuple) and type(v) is not tuple:
+            for a_, o_ in self.objects.items():     # a struct sequence standing for a collaborator (mock_isa)
+                if o_ is v:
+                    return {'t': 'ref', 'addr': a_}
         if isinstance(v, tuple):
             return {'t': 'tuple', 'v': [self.enc(x, depth + 1) for x in v]}
         if isinstance(v, list):
@@ -171,6 +257,8 @@ class Runtime:
         if isinstance(v, (set, frozenset)):
             return {'t': 'set', 'v': sorted((self.enc(x, depth + 1) for x in v), key=repr)}
         if isinstance(v, Opaque):
+            return {'t': 'opaque', 'name': v._name}
+        if isinstance(v, OpaqueExc):
             return {'t': 'opaque', 'name': v._name}
         if isinstance(v, Mock):
             return {'t': 'ref', 'addr': v._addr}
@@ -222,6 +310,16 @@ class Runtime:
                 self.divergence.append(f'cannot set {f}: {e!r}')
         for addr, f, v in ent.get('osets', []):
             object.__setattr__(self.objects[addr], f, self.dec(v))
+        if ent.get('awaited'):
+            # `await stub(...)`: hand back a coroutine that yields the scripted result / exception when awaited
+            exc = self.make_exc(ent['exc']) if ent.get('exc') else None
+            val = None if exc is not None else self.dec(ent['ret'])
+
+            async def _awaited():
+                if exc is not None:
+                    raise exc
+                return val
+            return _awaited()
         if ent.get('exc'):
             raise self.make_exc(ent['exc'])
         return self.dec(ent['ret'])
@@ -270,6 +368,18 @@ class ModuleProxy:
         if n in self._over:
             return self._over[n]
         return getattr(self._real, n)
+
+
+class SubscriptProxy:
+    """stands in for a generic class used as  Name[T](...)  when that constructor call is stubbed"""
+    def __init__(self, stub):
+        self._stub = stub
+
+    def __getitem__(self, _item):
+        return self._stub
+
+    def __call__(self, *a, **k):
+        return self._stub(*a, **k)
 
 
 RT = None
@@ -328,6 +438,8 @@ def run_job(job):
     rt = RT = Runtime(job)
     mod = importlib.import_module('asyncssh.' + job['module'])
     rt.module = mod
+    for gname, gval in job.get('patch_globals', {}).items():
+        setattr(mod, gname, rt.dec(gval))
     parts = job['qualname'].split('.')
     # 1. objects
     selfj = job.get('self')
@@ -341,6 +453,8 @@ def run_job(job):
         elif o.get('real'):
             rcls = getattr(importlib.import_module('asyncssh.' + o['real'][0]), o['real'][1])
             obj = object.__new__(rcls)
+        elif o.get('isa'):
+            obj = mock_isa(o['addr'], o['cls'], o['isa'], mod)
         else:
             obj = Mock(o['addr'], o['cls'])
         rt.objects[o['addr']] = obj
@@ -355,18 +469,44 @@ def run_job(job):
         if ent.get('recv_addr') is not None:
             tgt = rt.objects[ent['recv_addr']]
             name = ent['key'].rsplit('.', 1)[-1]
-            if tgt is rt.self_obj:
+            if tgt is rt.self_obj and ent['key'].startswith('super().'):
+                # stubbed base-class method reached through super(): patch the class that super() resolves to
+                # (each job runs in a forked child, so the patch does not leak)
+                try:
+                    owner = getattr(mod, parts[0])
+                    mro = type(tgt).__mro__
+                    for k in mro[mro.index(owner) + 1:]:
+                        if name in k.__dict__:
+                            fn_stub = StubFn(rt, ent['recv_addr'], name)
+                            setattr(k, name, (lambda st_: lambda self_, *a, **kw: st_(*a, **kw))(fn_stub))
+                            break
+                except (ValueError, AttributeError, TypeError):
+                    pass
+            elif tgt is rt.self_obj:
                 object.__setattr__(tgt, name, StubFn(rt, ent['recv_addr'], name))
         else:
             key = ent['key']
             stub = StubFn(rt, None, key, free_key=key)
-            if '.' in key:
+            if key.endswith('[]') and '.' not in key:
+                # stubbed generic-alias constructor  Name[T](...)  : Name[...] hands back the stub
+                setattr(mod, key[:-2], SubscriptProxy(stub))
+            elif '.' in key:
                 m, attr = key.split('.', 1)
+                if not hasattr(mod, m):
+                    continue        # method of a local value (opaque object): see Opaque.__getattr__
                 real = getattr(mod, m)
                 if not isinstance(real, ModuleProxy):
-                    setattr(mod, m, ModuleProxy(real, {attr: stub}))
-                else:
-                    real._over[attr] = stub
+                    real = ModuleProxy(real, {})
+                    setattr(mod, m, real)
+                while '.' in attr:
+                    # stub of a function in a sub-module (os.path.realpath): proxy every level of the dotted name
+                    head, attr = attr.split('.', 1)
+                    sub = real._over.get(head)
+                    if not isinstance(sub, ModuleProxy):
+                        sub = ModuleProxy(getattr(real._real, head), {})
+                        real._over[head] = sub
+                    real = sub
+                real._over[attr] = stub
             else:
                 setattr(mod, key, stub)
     if rt.self_obj is not None:
@@ -392,6 +532,11 @@ def run_job(job):
             call = lambda: fn(rt.self_obj, *args, **kwargs)
     else:
         fn = getattr(mod, parts[0])
+        if len(parts) == 2:
+            owner = fn
+            fn = getattr(owner, parts[1])   # static method put under contract without a receiver (Class.method)
+            if isinstance(inspect.getattr_static(owner, parts[1]), classmethod) and args:
+                args = args[1:]             # classmethod: Python binds the explicit `cls` parameter itself
         call = lambda: fn(*args, **kwargs)
     out = {}
     try:
